@@ -684,3 +684,8 @@ Q(id='C01.kalign_run.protocol', props=['C01', 'C04', 'C09', 'C16', 'C03'], cls='
   unwind=4, timeout=600, replayable=False, funcs=['kalign_run'],
   trusted=[TRUST_MSG, 'esl_stopwatch_*: no-op stubs', 'all twelve callees replaced at the call sites by the step contracts of contracts/aln_wrap.contracts.h; each has its own queries'],
   assumptions=['status / kind of sequence / thread count / type / penalties (full float domain) / failing step symbolic; OpenMP call omp_set_num_threads is outside the non-OpenMP verification build (static fact omp_set_num_threads_each_call)'])
+Q(id='C04.kalign_read_input.protocol', props=['C04', 'C05'], cls='P', harness='c04_read_protocol.c', entry='h_c04_read_protocol',
+  mode='dfcc', replace=['read_file_stdin', 'detect_alignment_format', 'read_fasta', 'read_msf', 'read_clu', 'detect_alphabet', 'detect_aligned', 'set_sip_nsip', 'free_in_buffer', 'merge_msa', 'kalign_free_msa'],
+  unwind=4, timeout=600, replayable=False, funcs=['kalign_read_input', 'check_for_sequences'],
+  trusted=[TRUST_MSG, 'esl_stopwatch_* / my_file_exists: trivial stubs', 'eleven callees replaced at the call sites by the step contracts of contracts/msa_io.read_input.contracts.h'],
+  assumptions=['files of 0..2 lines with symbolic lengths 0..1000 (the "was anything read" test looks at the first line only); format result symbolic; with / without an msa from earlier inputs'])
